@@ -147,6 +147,65 @@ WEIRD_NAMES = ['A', 'a b', 'x-y', '1abc', '_u', 'Ünï', 'é', '€uro', 'or', '
                'semi;colon', '<tag>', 'a&b', '{', 'x' * 40, ' lead', 'trail ', '#', 'NOT', 'requires', 'Integer', 'cardinality', 'abstract', 'null']
 
 
+# -- the real transform() of the file readers on an in-memory document -------------------------------------
+# The readers parse a file (ElementTree.parse / open + json.load) and then walk the parsed object. The walk,
+# including the glue inside transform(), must run for real (symbolically in E1); only the file parser is a stub
+# with the contract "returns the document": the name the reader module uses for it is shimmed for the call.
+
+class _ModShim:
+    def __init__(self, real, **over):
+        self._real = real
+        self.__dict__.update(over)
+
+    def __getattr__(self, k):
+        return getattr(self._real, k)
+
+
+class _NullFile:
+    def __enter__(self):
+        return self
+
+    def __exit__(self, *a):
+        return False
+
+    def read(self, *a):
+        return ''
+
+    def close(self):
+        pass
+
+
+def xml_transform(reader_cls, tree):
+    """reader_cls(path).transform() with <module>.ElementTree.parse returning `tree` (an ElementTree)."""
+    import sys
+    mod = sys.modules[reader_cls.__module__]
+    saved = mod.ElementTree
+    mod.ElementTree = _ModShim(saved, parse=lambda *a, **k: tree)
+    try:
+        return reader_cls('/nonexistent/in-memory.xml').transform()
+    finally:
+        mod.ElementTree = saved
+
+
+def json_transform(reader_cls, data):
+    """reader_cls(path).transform() with open() and json.load() of the reader module returning `data`."""
+    import sys
+    mod = sys.modules[reader_cls.__module__]
+    saved_json = mod.json
+    had_open = 'open' in mod.__dict__
+    saved_open = mod.__dict__.get('open')
+    mod.json = _ModShim(saved_json, load=lambda *a, **k: data)
+    mod.open = lambda *a, **k: _NullFile()
+    try:
+        return reader_cls('/nonexistent/in-memory.json').transform()
+    finally:
+        mod.json = saved_json
+        if had_open:
+            mod.open = saved_open
+        else:
+            del mod.open
+
+
 # Sets of distinct names that become equal (or contain one another) under the usual normalisations: removal or
 # trimming of blanks, case folding, separator replacement, quoting, escaping, Unicode normal forms, numeric
 # reading, truncation. A format that derives identifiers from names must keep the members of a set apart.
@@ -165,6 +224,39 @@ CONFUSABLE_SETS = [
     ['a/b', 'a:b', 'a|b', 'a%2Fb'],
     ['A.B', 'A..B', 'AB', 'A_B'],
 ]
+
+
+# Constraints that only differ by the letter case of a feature name, or that are repeated literally: each is a
+# constraint of the model and must survive (Constraint.__eq__ compares the lower-cased text, so a reader or writer
+# that de-duplicates with == or a set loses them).
+DUP_SHAPE = (((),), ((),), ((),))
+DUP_CARDS = [(1, 1), (0, 1), (0, 1)]
+DUP_NAMES = ['Root', 'Gui', 'GUI', 'Core']
+DUP_CTC_SETS = [
+    [('REQUIRES', 'Gui', 'Core'), ('REQUIRES', 'GUI', 'Core')],
+    [('IMPLIES', 'Gui', 'Core'), ('IMPLIES', 'Gui', 'Core')],
+    [('EXCLUDES', 'Gui', 'GUI'), ('EXCLUDES', 'GUI', 'Gui'), ('OR', ('NOT', 'Gui'), 'Core'), ('OR', ('NOT', 'GUI'), 'Core'), ('OR', ('NOT', 'Gui'), 'Core')],
+    [('REQUIRES', 'Core', 'Gui'), ('EXCLUDES', 'Core', 'GUI'), ('REQUIRES', 'Core', 'GUI'), ('EXCLUDES', 'Core', 'Gui')],
+]
+
+
+def dup_models():
+    return [R.build(DUP_SHAPE, DUP_CARDS, names=DUP_NAMES, ctcs=[R.ctc('n%d' % i, t) for i, t in enumerate(trees)]) for trees in DUP_CTC_SETS]
+
+
+def dup_batch(modname, label):
+    """native: every near-duplicate constraint set through <module>.replay_dups(k) -> list of problems."""
+    res = {'instances': 0, 'nontrivial': 0, 'violations': [], 'native_runs': 0}
+    for k in range(len(DUP_CTC_SETS)):
+        res['instances'] += 1
+        res['native_runs'] += 1
+        res['nontrivial'] += 1
+        import importlib
+        bad = importlib.import_module(modname).replay_dups(k)
+        if bad:
+            res['violations'].append({'label': label, 'detail': bad[0][:700], 'replay_func': 'replay_dups', 'replay_args': [k]})
+    res['sample'] = {'names': DUP_NAMES, 'constraints': DUP_CTC_SETS[0]}
+    return res
 
 
 def confusable_cases(n, ok=None, fill='F%d'):
